@@ -755,6 +755,216 @@ impl Scenario for MmapVecSc {
     }
 }
 
+
+// =======================================================================================
+// MmapVec<u8>: every mutator, including the ones that change elements in place without
+// changing the length (get_mut, as_mut_slice, fill_range_simd with and without the >= 64-byte
+// fast path), followed by sync and a reopen: "presents exactly the logical content it had
+// when it was last synced".  No damaged images here - this scenario is about which
+// mutations a sync makes durable.
+
+struct MmapVecBytes;
+
+fn show_bytes(v: &Vec<u8>) -> String {
+    format!("len {} #{}", v.len(), hex(v, 10))
+}
+
+impl Scenario for MmapVecBytes {
+    fn name(&self) -> String {
+        "MmapVec/u8-inplace".into()
+    }
+    fn budget(&self, tier: Tier) -> u64 {
+        match tier {
+            Tier::Quick => 3000,
+            Tier::Thorough => 120_000,
+        }
+    }
+    fn run(&self, cx: &mut Run) {
+        let cfg = cx.src.chan("cfg");
+        let cap0 = *cfg.pick(&[1usize, 8, 64, 200, 1024]);
+        let sow = cfg.chance(1, 6);
+        let planned = 4 + cfg.below(14);
+        let scratch = Scratch::new(cx, "mmapvec8");
+        let path = scratch.path("b.mmv");
+        let mut v = Verdicts::default();
+        fence::on(true);
+        let mark0 = fence::mark();
+        let config = || MmapVecConfig { initial_capacity: cap0, growth_factor: 2.0, sync_on_write: sow, ..MmapVecConfig::default() };
+        cx.ev(format!("create MmapVec<u8> initial_capacity={} sync_on_write={}", cap0, sow));
+        let mut vec = MmapVec::<u8>::create(&path, config()).ok();
+        let mut mem: Vec<u8> = vec![];
+        let mut durable: Option<Vec<u8>> = None;
+        let mut ctr = 0u8;
+        let mut ops = cx.src.ops("ops", planned);
+        let mut nops = 0u64;
+        let mut since_sync: Vec<&'static str> = vec![];
+        // every state the vector went through since the last explicit sync: growth and sync_on_write
+        // sync implicitly, so any of them may legitimately be what a restart finds
+        let mut since_states: Vec<Vec<u8>> = vec![];
+        while let (Some(o), true) = (ops.next(), vec.is_some()) {
+            nops += 1;
+            let h = vec.as_mut().unwrap();
+            ctr = ctr.wrapping_add(1).max(1);
+            let what: String;
+            let mut explicit = false;
+            let res: Result<(), String> = match o[0] % 9 {
+                0 | 1 => {
+                    let n = [1usize, 3, 40, 70, 130, 200][(o[1] % 6) as usize];
+                    let xs: Vec<u8> = (0..n).map(|i| ctr.wrapping_mul(31).wrapping_add(i as u8)).collect();
+                    what = format!("extend {} bytes", n);
+                    since_sync.push("extend");
+                    for x in &xs {
+                        mem.push(*x);
+                        since_states.push(mem.clone());
+                    }
+                    h.extend(xs.iter().copied()).map_err(|e| e.to_string())
+                }
+                2 | 3 => {
+                    if mem.is_empty() {
+                        continue;
+                    }
+                    let len = [1usize, 7, 63, 64, 65, 100, 128][(o[1] % 7) as usize].min(mem.len());
+                    let start = (o[2] as usize) % (mem.len() - len + 1);
+                    what = format!("fill_range_simd({}..{}, {:#x})", start, start + len, ctr);
+                    since_sync.push(if len >= 64 { "fill_range_simd(>=64B)" } else { "fill_range_simd(<64B)" });
+                    if len >= 64 {
+                        cx.probe("fill_range_fast_path");
+                    }
+                    for b in &mut mem[start..start + len] {
+                        *b = ctr;
+                    }
+                    h.fill_range_simd(start..start + len, ctr).map_err(|e| e.to_string())
+                }
+                4 => {
+                    if mem.is_empty() {
+                        continue;
+                    }
+                    let i = (o[1] as usize) % mem.len();
+                    what = format!("*get_mut({}) = {:#x}", i, ctr);
+                    since_sync.push("get_mut");
+                    mem[i] = ctr;
+                    match h.get_mut(i) {
+                        Some(r) => {
+                            *r = ctr;
+                            Ok(())
+                        }
+                        None => Err("get_mut in range returned None".into()),
+                    }
+                }
+                5 => {
+                    if mem.is_empty() {
+                        continue;
+                    }
+                    let a = (o[1] as usize) % mem.len();
+                    let b = (a + 1 + (o[2] as usize) % 80).min(mem.len());
+                    what = format!("as_mut_slice()[{}..{}].fill({:#x})", a, b, ctr);
+                    since_sync.push("as_mut_slice");
+                    for x in &mut mem[a..b] {
+                        *x = ctr;
+                    }
+                    h.as_mut_slice()[a..b].fill(ctr);
+                    Ok(())
+                }
+                6 => {
+                    let n = (o[1] as usize) % (mem.len() + 1);
+                    what = format!("truncate {}", n);
+                    since_sync.push("truncate");
+                    mem.truncate(n);
+                    h.truncate(n).map_err(|e| e.to_string())
+                }
+                7 => {
+                    what = "sync".into();
+                    explicit = true;
+                    h.sync().map_err(|e| e.to_string())
+                }
+                _ => {
+                    // restart without a sync: the file must still hold the last synced content
+                    match durable.clone() {
+                        None => {
+                            what = "sync (restart skipped: nothing synced yet)".into();
+                            explicit = true;
+                            h.sync().map_err(|e| e.to_string())
+                        }
+                        Some(d) => {
+                            what = "restart (drop without sync, open)".into();
+                            vec = None;
+                            match MmapVec::<u8>::open(&path, config()) {
+                                Ok(nv) => {
+                                    let got = nv.as_slice().to_vec();
+                                    // growth and sync_on_write sync implicitly: any state since the last explicit sync is acceptable only if it equals the model now or the recorded durable state
+                                    if got != d && got != mem && !since_states.contains(&got) {
+                                        v.add(PRIO_CLEAN, "clean_reopen_mismatch", "MmapVec<u8>.reopen/restart", format!("restart: reopened as {} but the last synced state was {} (in memory: {})", show_bytes(&got), show_bytes(&d), show_bytes(&mem)));
+                                    }
+                                    mem = got;
+                                    durable = Some(mem.clone());
+                                    since_sync.clear();
+                                    since_states.clear();
+                                    vec = Some(nv);
+                                    cx.probe("restarts");
+                                    Ok(())
+                                }
+                                Err(e) => {
+                                    v.add(PRIO_CLEAN, "clean_reopen_refused", "MmapVec<u8>.reopen/restart", format!("restart: undamaged file refused ({})", e));
+                                    Err(e.to_string())
+                                }
+                            }
+                        }
+                    }
+                }
+            };
+            if let Err(e) = &res {
+                cx.ev(format!("{} -> Err({}); history ends here", what, e));
+                break;
+            }
+            if explicit {
+                match mmapvec8_recover(&path) {
+                    Outcome::Ok(s) => {
+                        if s == mem {
+                            cx.ev(format!("{} -> durable {}", what, show_bytes(&s)));
+                            cx.probe("durable_points");
+                            durable = Some(s);
+                            since_sync.clear();
+                            since_states.clear();
+                        } else {
+                            cx.ev(format!("{} -> file reopens as {} but the vector holds {}", what, show_bytes(&s), show_bytes(&mem)));
+                            let first_diff = s.iter().zip(mem.iter()).position(|(a, b)| a != b).unwrap_or(s.len().min(mem.len()));
+                            v.add(PRIO_CLEAN, "clean_reopen_mismatch", "MmapVec<u8>.reopen/clean", format!("sync returned Ok but the file reopens as {} while the vector held {} (first difference at byte {}); mutations since the previous sync: {:?}", show_bytes(&s), show_bytes(&mem), first_diff, since_sync));
+                            break;
+                        }
+                    }
+                    Outcome::Refused => {
+                        v.add(PRIO_CLEAN, "clean_reopen_refused", "MmapVec<u8>.reopen/clean", format!("after sync the undamaged file is refused; the vector held {}", show_bytes(&mem)));
+                        break;
+                    }
+                    Outcome::Panic(loc, msg) => {
+                        v.add(PRIO_PANIC, "panic", &loc, format!("MmapVec<u8> clean reopen after sync: {}", msg));
+                        break;
+                    }
+                }
+            } else {
+                cx.ev(format!("{}", what));
+                since_states.push(mem.clone());
+            }
+        }
+        drop(vec);
+        cx.steps = nops;
+        cx.nontrivial = durable.is_some();
+        fence::release_since(mark0);
+        fence::on(false);
+        v.report(cx);
+    }
+}
+
+fn mmapvec8_recover(path: &Path) -> Outcome<Vec<u8>> {
+    let m = fence::mark();
+    let o = recover("MmapVec/u8-inplace", "clean reopen after sync", || {
+        let v = MmapVec::<u8>::open(path, MmapVecConfig::default()).map_err(|e| e.to_string())?;
+        Ok(v.as_slice().to_vec())
+    });
+    fence::release_since(m);
+    o
+}
+
 // =======================================================================================
 // PlainBlobStore (a directory of record files)
 
@@ -1795,6 +2005,7 @@ fn main() {
     // the dying scenario goes FIRST, when there is nothing to lose yet.
     spec.scenarios.push(Box::new(MmapVecSc { large: true }));
     spec.scenarios.push(Box::new(MmapVecSc { large: false }));
+    spec.scenarios.push(Box::new(MmapVecBytes));
     spec.scenarios.push(Box::new(PlainSc));
     spec.scenarios.push(Box::new(ReorderSc));
     spec.scenarios.push(Box::new(ZipOffsetSc));
